@@ -453,7 +453,7 @@ struct Base
     const a_real *me, *mec, *kp, *ki, *kd;
     double base_ki; // the base integral gain keeps ki >= 0 for every consequent
 };
-static const Base BASES[7] = {
+static const Base BASES[9] = {
     {"3x3 shoulder triangles", 3, 2, m3e, m3ec, m3kp, m3ki, m3kd, 0.5},
     {"5x5 trapezoid shoulders", 5, 2, m5e, m5e, m5k, m5k, m5k, 2},
     {"3x3 wide triangles (3 active)", 3, 3, w3e, w3e, w3k, w3k, w3k, 1},
@@ -461,6 +461,8 @@ static const Base BASES[7] = {
     {"3x3 shoulder triangles without a kp table", 3, 2, m3e, m3ec, nullptr, m3ki, m3kd, 0.5}, // a table may be absent: that gain keeps its base value
     {"3x3 unsorted table (left, right, middle)", 3, 2, u3e, u3e, u3k, u3k, u3k, 3},
     {"2 huge ramps + triangle (tiny firing strengths)", 3, 3, n3e, n3e, u3k, u3k, u3k, 3},
+    {"3x3 shoulder triangles without a ki table", 3, 2, m3e, m3ec, m3kp, nullptr, m3kd, 0.5},
+    {"3x3 shoulder triangles without a kd table", 3, 2, m3e, m3ec, m3kp, m3ki, nullptr, 0.5},
 };
 static const unsigned OPRS[7] = {A_PID_FUZZY_EQU, A_PID_FUZZY_CAP, A_PID_FUZZY_CAP_ALGEBRA, A_PID_FUZZY_CAP_BOUNDED, A_PID_FUZZY_CUP, A_PID_FUZZY_CUP_ALGEBRA, A_PID_FUZZY_CUP_BOUNDED};
 static const char *OPRN[7] = {"equ", "cap", "cap_algebra", "cap_bounded", "cup", "cup_algebra", "cup_bounded"};
